@@ -118,6 +118,17 @@ def run(chk):
             if b.callee(t) == FLOAT_RESULT:
                 from facts import op_local
                 fr_args.add(op_local(t["args"][0]))
+        # a result may be bound to a named local first (`let sum = a + b; float_result(sum)`): close over plain moves/copies
+        grew = True
+        while grew:
+            grew = False
+            for bi, si, s in b.iter_stmts():
+                if s["rv"]["k"] == "use" and not s["d"].get("p") and s["d"]["l"] in fr_args:
+                    from facts import op_local as _ol
+                    src = _ol(s["rv"]["op"])
+                    if src is not None and src not in fr_args:
+                        fr_args.add(src)
+                        grew = True
         for o in fl:
             ok = o["dest"] in fr_args
             d = {"method": mname, "op": o["op"], "line": o["line"], "flows_into_float_result": ok}
